@@ -73,6 +73,13 @@ def gen_cases(rng, ctx):
             l = line("c14_establish", [[http2, est, 100000]])
             cases.append(Case(l, l, kind="live:establishment-h%d" % (2 if http2 else 1), nontrivial=True,
                               meta={"establish": True, "est": est, "http2": http2}))
+    # the timers of the real listener (Core::listen on a loopback port): silent TCP connection, half a ClientHello,
+    # completed handshake without a request (HTTP/1.1 and HTTP/2)
+    for kind in (0, 1, 2, 3):
+        for hs, lt in ((400, 600), (300, 350)):
+            l = line("c14_front", [[kind, hs, lt]])
+            cases.append(Case(l, l, kind="live:listener-%s" % ["silent-tcp", "half-client-hello", "no-request-h1", "no-request-h2"][kind], nontrivial=True,
+                              meta={"front": True, "kind": kind, "hs": hs, "lt": lt}))
     return cases
 
 
@@ -92,6 +99,25 @@ def judge(case, impl, model, spec, ctx):
             return [("violation", "%s: answered %d, not 502" % (what, st))]
         if when == 0:
             return [("violation", "%s: failed before 0.7 x the establishment timeout" % what)]
+        if model is not None and impl != model:
+            return [("disagree", "%s: %s vs model %s" % (what, impl, model))]
+        return []
+    if case.meta.get("front"):
+        m = case.meta
+        if impl == "999":
+            return [("violation", "the listener harness panicked")]
+        if impl == "996":
+            ctx.setdefault("skipped_env", []).append(case.kind)
+            return []
+        closed, when = untok(impl.split()[0])
+        t = m["hs"] if m["kind"] <= 1 else m["lt"]
+        what = "real listener, %s, %s timeout %d ms" % (
+            ["TCP connection that never sends anything", "half a ClientHello and then silence", "TLS handshake completed (HTTP/1.1) and no request",
+             "TLS handshake completed (HTTP/2 preface) and no request"][m["kind"]], "TLS handshake" if m["kind"] <= 1 else "client-listener", t)
+        if not closed or when == 2:
+            return [("violation", "%s: the connection was still open after %d ms" % (what, 3 * t + 500))]
+        if when == 0:
+            return [("violation", "%s: closed before 0.7 x the timeout" % what)]
         if model is not None and impl != model:
             return [("disagree", "%s: %s vs model %s" % (what, impl, model))]
         return []
